@@ -30,6 +30,7 @@ reload (`apply_connection_changes` may remove the very link the chain is about, 
 def bystander : Ev → Bool
   | .hk _ => false
   | .failNext _ => false
+  | .failAfter _ _ => false
   | .failBind _ => false
   | .reload _ _ _ => false
   | .uplink _ _ data =>
@@ -64,6 +65,7 @@ theorem bystander_reg (s : Sys F) (e : Ev) (h : bystander e = true) : (step s e)
   cases e with
   | hk now => cases h
   | failNext c => cases h
+  | failAfter c kfa => cases h
   | failBind c => cases h
   | client now pkt => exact (Hk.client_pw s pkt now).2.1
   | flush now => exact (Hk.flush_pw false none s now).2.1
